@@ -284,6 +284,12 @@ FONT_BYTES_FIXED = [
     (-1, psf2_header(0, 0, 1, 38, 2) + bytes(range(1, 7))), (-1, psf2_header(0, 0xFFFFFFFF, 0xFFFFFFFF, 0xFFFFFFFF, 2)),
     (-1, psf2_header(0, 32, 55296, 0, 16)), (-1, psf2_header(0, 32, 55297, 0, 16)), (-1, psf2_header(0, 32, 0xFFFFFFFF, 0, 16)),
     (-1, psf2_header(0, 32, 0, 7, 0xFFFFFFFF)),
+    # fix fB: glyph sizes outside 1..=8 x 1..=32 and charsize != height are refused (PSF2, PSF1, raw); the boundary loads
+    (-1, psf2_header(0, 32, 0, 0, 16, 0)), (-1, psf2_header(0, 32, 0, 0, 0, 8)), (-1, psf2_header(0, 32, 0, 0, 16, 1 << 30)),
+    (-1, psf2_header(0, 32, 0, 0, 0xFFFFFFFF, 0xFFFFFFFF)), (-1, psf2_header(0, 32, 1, 33, 33) + bytes(range(33))),
+    (-1, psf2_header(0, 32, 1, 32, 32) + bytes(range(32))), (-1, psf2_header(0, 32, 2, 2, 2, 9) + bytes(range(1, 5))),
+    (-1, psf2_header(0, 32, 2, 2, 2, 1) + bytes(range(1, 5))), (-1, b'\x36\x04\x00\x21' + bytes(range(66))), (-1, b'\x36\x04\x00\x20' + bytes(range(64))),
+    (-1, bytes(32 * 256)), (-1, bytes(33 * 256)),
     (-1, bytes(256)), (-1, bytes(255)), (-1, bytes(range(256)) * 2), (-1, b'\x01' * 257),
     (0, b''), (0, b'\x01\x02\x03'), (1, b''), (3, bytes(range(10))), (3, bytes(range(11))), (255, bytes(300)), (16, bytes(range(256)) * 17),
 ]
@@ -295,7 +301,7 @@ def gen_font_bytes(rng):
     if r < 0.12:
         return -1, (rng.choice([b'', b'\x36\x04', b'\x72\xb5\x4a\x86', b'\x72\xb5']) + rb(rng.randint(0, 3)))[:rng.randint(0, 5)]
     if r < 0.32:                                                  # PSF1: any mode, height 0..20, data of any length
-        return -1, b'\x36\x04' + bytes([rng.choice([0, 1, 2, 3, 5, rng.randrange(256)]), rng.choice([0, 1, 2, 3, 8, 16, rng.randrange(21)])]) + rb(rng.choice([0, 1, 7, 16, 33, rng.randint(0, 600)]))
+        return -1, b'\x36\x04' + bytes([rng.choice([0, 1, 2, 3, 5, rng.randrange(256)]), rng.choice([0, 1, 2, 3, 8, 16, 32, 33, rng.randrange(21)])]) + rb(rng.choice([0, 1, 7, 16, 33, rng.randint(0, 600)]))
     if r < 0.67:                                                  # PSF2
         length = rng.choice([0, 1, 2, 3, 5, 17, 256, rng.randint(0, 40)])
         charsize = rng.choice([0, 1, 2, 3, 8, 16, rng.randint(0, 20)])
@@ -310,11 +316,11 @@ def gen_font_bytes(rng):
         elif q < 0.24: body = body[:rng.randint(0, len(body))] if rng.random() < 0.5 else body + rb(rng.randint(1, 5))
         elif q < 0.30: length, charsize, body = rng.choice([55295, 55296, 55297, 65536, 0xFFFFFFFF]), 0, rb(extra); height = rng.choice([0, 1, 16])
         elif q < 0.34: length, charsize = rng.choice([(0xFFFFFFFF, 0xFFFFFFFF), (0x10000, 0x10000), (0, 0xFFFFFFFF)])
-        d = psf2_header(version, hs, length, charsize, height) + body
+        d = psf2_header(version, hs, length, charsize, height, rng.choice([8, 8, 8, 8, 8, 8, 6, 1, 0, 9, rng.randrange(0, 12), 1 << 30, 0xFFFFFFFF])) + body
         if q > 0.95: d = d[:rng.randint(4, 31)]
         return -1, d
     if r < 0.80:                                                  # plain: a multiple of 256 bytes, or not
-        n = rng.choice([256, 512, 768, 1024, 4096, rng.randint(5, 700)])
+        n = rng.choice([256, 512, 768, 1024, 4096, 32 * 256, 33 * 256, rng.randint(5, 700)])
         d = bytearray(rb(n))
         if d[:2] == b'\x36\x04': d[0] = 0
         return -1, bytes(d)
